@@ -319,6 +319,8 @@ struct Ctx {
     out: Out,
     stats: BTreeMap<String, u64>,
     known_hits: BTreeMap<String, u64>,
+    /// failures outside every known class, printed shortest input first at the end of the run
+    new_fails: Vec<String>,
 }
 
 impl Ctx {
@@ -328,10 +330,28 @@ impl Ctx {
     fn fail(&mut self, class: &str, detail: String) {
         let n = self.known_hits.entry(class.to_string()).or_insert(0);
         *n += 1;
-        // known classes are reported a bounded number of times per run, `new` always
-        if class == "new" || *n <= 40 {
+        if class == "new" {
+            self.new_fails.push(detail);
+        } else if *n <= 40 {
+            // known classes are reported a bounded number of times per run
             self.out.oracle_fail("C09", class, &detail);
         }
+    }
+    /// the smallest failing inputs first (poor man's shrinking: histories are generated step by
+    /// step, so the first failing step of a history is its shortest failing prefix)
+    fn flush_new(&mut self) {
+        let mut v = std::mem::take(&mut self.new_fails);
+        v.sort_by_key(|d| d.len());
+        for d in v.iter().take(400) {
+            self.out.oracle_fail("C09", "new", d);
+        }
+        self.out.flush();
+    }
+}
+
+impl Drop for Ctx {
+    fn drop(&mut self) {
+        self.flush_new();
     }
 }
 
@@ -847,7 +867,7 @@ fn main() {
     let thorough = tier_is_thorough();
     let mut rng = Rng::new(seed_from_env());
     let p = pools();
-    let mut cx = Ctx { out: Out::new(), stats: BTreeMap::new(), known_hits: BTreeMap::new() };
+    let mut cx = Ctx { out: Out::new(), stats: BTreeMap::new(), known_hits: BTreeMap::new(), new_fails: vec![] };
     let k = &p.keys;
     let (ce4, c) = (k[0].clone(), k[2].clone());
 
@@ -922,5 +942,5 @@ fn main() {
     for (k, v) in &hits {
         cx.out.stat(&format!("oracle_failures_{k}"), v);
     }
-    cx.out.flush();
+    cx.flush_new();
 }
